@@ -102,6 +102,34 @@ Proof.
   - apply Z.eqb_neq in Ek. rewrite as_find_update_other by assumption. reflexivity.
 Qed.
 
+(* insert is accepted exactly when the key is absent and the count is below both the slot count and the largest
+   count the prefix can record; an accepted insert raises the count by exactly one *)
+Theorem insert_accepts_iff s c s' b n : ainv pbytes s -> astep_c pbytes s (AInsert c) = Ok (s', ABool b, n) ->
+  b = (match as_find (aabs s) (fst c) with
+       | Some _ => false
+       | None => negb (N.min (N.of_nat (length (aslots s))) (pmax pbytes - 1) <=? alen s)%N
+       end) /\
+  alen s' = (if b then alen s + 1 else alen s)%N /\ length (aslots s') = length (aslots s).
+Proof.
+  intros Hi Hrun. destruct (step_spec s (AInsert c) s' _ n Hi I Hrun) as [Hi' Hsp].
+  assert (Hlen : forall t, ainv pbytes t -> N.of_nat (length (aabs t)) = alen t).
+  { intros t [Hl _]. rewrite aabs_length by exact Hl. apply N2Nat.id. }
+  cbn [aspec_step abs_st asmem asbound_slots] in Hsp. unfold as_bound, as_len in Hsp.
+  unfold abs_st in Hsp. cbn [asmem asbound_slots] in Hsp. rewrite (Hlen s Hi) in Hsp.
+  assert (Hl' := Hlen s' Hi').
+  destruct (as_find (aabs s) (fst c)) eqn:F.
+  - injection Hsp as Hsl Habs Hb. subst b. split; [reflexivity|]. split.
+    + rewrite <- Hl', Habs. apply Hlen. exact Hi.
+    + apply Nat2N.inj. exact Hsl.
+  - destruct (N.min (N.of_nat (length (aslots s))) (pmax pbytes - 1) <=? alen s)%N eqn:Efull.
+    + injection Hsp as Hsl Habs Hb. subst b. split; [reflexivity|]. split.
+      * rewrite <- Hl', Habs. apply Hlen. exact Hi.
+      * apply Nat2N.inj. exact Hsl.
+    + injection Hsp as Hsl Habs Hb. subst b. split; [reflexivity|]. split.
+      * rewrite <- Hl', Habs. rewrite as_insert_length by exact F. rewrite Nat2N.inj_succ, (Hlen s Hi). lia.
+      * apply Nat2N.inj. exact Hsl.
+Qed.
+
 End P.
 
 Example clauses_example :
